@@ -103,6 +103,11 @@ Proof.
   - destruct (prunL I sk [peval e e0] w) as [[e2 w2]|] eqn:E; [|discriminate].
     inversion H; subst. destruct (IHsk _ _ _ _ E) as (k & T & G).
     exists k. split; [exact T|]. intro g. simpl. now rewrite G.
+  - inversion H; subst. exists 0. split; [simpl; lia|]. reflexivity.
+  - unfold seed_from in *. destruct (crs (VInt (as_seed I t (hist w))) (tickL gstate value w)) as [c1 w2] eqn:E. inversion H; subst.
+    exists 1. split.
+    + pose proof (crs_ticks gstate value seed (VInt (as_seed I t (hist w))) (tickL gstate value w)) as T. rewrite E in T. simpl in T. lia.
+    + intro g. simpl. unfold seed_from. rewrite E. reflexivity.
 Qed.
 
 (* ---------------------------------------------------------------- the analysis pgf is sound *)
@@ -163,10 +168,16 @@ Proof.
     + inversion H; subst. apply (ploop_psound I sk t A'); auto.
       intros e2 w2 B2. destruct (IHsk _ _ E1 e2 w2 B2) as (e1 & w1 & R1 & B1).
       exists e1, w1. split; auto. eapply below_le; [exact B1 | apply ale_look; exact L].
-    + destruct (pgf sk atop) as [A2|] eqn:E2; [|discriminate]. inversion H; subst.
-      apply (ploop_psound I sk t atop); [|apply below_top].
-      intros e2 w2 B2. destruct (IHsk _ _ E2 e2 w2 B2) as (e1 & w1 & R1 & B1).
-      exists e1, w1. split; auto. apply below_top.
+    + cbv zeta in H. destruct (pgf sk (ajoin A A1)) as [B1|] eqn:EB; [|discriminate].
+      destruct (ale B1 (ajoin A A1)) eqn:LB.
+      * inversion H; subst. apply (ploop_psound I sk t (ajoin A A1)).
+        -- intros e2 w2 B2. destruct (IHsk _ _ EB e2 w2 B2) as (e1 & w1 & R1 & B1').
+           exists e1, w1. split; auto. eapply below_le; [exact B1' | apply ale_look; exact LB].
+        -- eapply below_le; [exact B|]. intro x. rewrite alook_ajoin. apply wle_join_l.
+      * destruct (pgf sk atop) as [A2|] eqn:E2; [|discriminate]. inversion H; subst.
+        apply (ploop_psound I sk t atop); [|apply below_top].
+        intros e2 w2 B2. destruct (IHsk _ _ E2 e2 w2 B2) as (e1 & w1 & R1 & B1').
+        exists e1, w1. split; auto. apply below_top.
   - inversion H; subst. simpl. eexists _, _. split; [reflexivity|].
     apply below_set; auto. now apply below_eval.
   - inversion H; subst. simpl.
@@ -184,6 +195,12 @@ Proof.
     { intro y. destruct y as [|y]; simpl; [now apply below_eval | destruct y; reflexivity]. }
     destruct (IHsk _ _ E1 [peval e e0] w B0) as (e1 & w1 & R1 & _).
     rewrite R1. eauto.
+  - inversion H; subst. simpl. eauto.
+  - inversion H; subst. simpl. unfold seed_from.
+    destruct (crs (VInt (as_seed I t (hist w))) (tickL gstate value w)) as [c1 w1] eqn:E.
+    eexists _, _. split; [reflexivity|].
+    apply below_set; auto.
+    pose proof (wabsp_of_gen_crs (VInt (as_seed I t (hist w))) (tickL gstate value w)) as X. rewrite E in X. simpl in X. rewrite X. reflexivity.
 Qed.
 
 (* ---------------------------------------------------------------- one call of an extracted skeleton *)
@@ -256,6 +273,11 @@ Proof.
     eexists _, w1, 1. repeat split; auto; try lia. intro g. simpl. rewrite E. reflexivity.
   - destruct (IHsk D [peval e e0] w) as (e1 & w1 & k1 & H1 & S1 & T1 & G1).
     exists e0, w1, k1. repeat split; auto. intro g. simpl. now rewrite G1.
+  - exists e0, (failL gstate value w), 0. repeat split; simpl; auto; lia.
+  - unfold pdf_post. simpl. unfold seed_from. destruct (crs (VInt (as_seed I t (hist w))) (tickL gstate value w)) as [c1 w1] eqn:E.
+    pose proof (crs_hist_srcs (VInt (as_seed I t (hist w))) (tickL gstate value w)) as [Hh Hs]. rewrite E in Hh, Hs. simpl in Hh, Hs.
+    pose proof (crs_ticks gstate value seed (VInt (as_seed I t (hist w))) (tickL gstate value w)) as T. rewrite E in T. simpl in T.
+    eexists _, w1, 1. repeat split; auto; try lia.
 Qed.
 
 Theorem pcall_rng_free : forall (I : interp) sk, pdraw_free sk = true ->
